@@ -83,7 +83,7 @@ Lemma run_scenario_calls cfg st id all_steps oe eff own st' res fld ev :
   exists cs, step_calls ev = map (pair id) cs /\ in_order (c_cont cfg) cs (map st_id all_steps).
 Proof.
   unfold run_scenario. cbv zeta.
-  set (hc := negb (c_dry cfg) && c_expr cfg eff).
+  set (hc := negb (c_dry cfg) && sel cfg eff).
   assert (F1 : forall st1 hf e, (if hc then
         let '(sa, b1, e1) := run_tag_hooks cfg (push st) HBeforeTag own in
         let '(sb, b2, e2) := run_hook cfg sa HBeforeScenario id in (sb, b1 || b2, e1 ++ e2)
@@ -121,9 +121,9 @@ Proof.
   destruct (pop st3) as [[st4 cr] evp] eqn:E4. apply pop_quiet in E4. apply allq_calls in E4.
   intros E; inversion E; subst; clear E.
   exists (call_ids ev_steps). split; [|exact Si].
-  assert (A : call_ids (if c_expr cfg eff || c_show_skipped cfg
+  assert (A : call_ids (if sel cfg eff || c_show_skipped cfg
                         then EFmt (FScenario id) :: map (fun s => EFmt (FStepAnn (st_id s))) all_steps else []) = []).
-  { destruct (c_expr cfg eff || c_show_skipped cfg); [|reflexivity]. cbn. clear. induction all_steps; cbn; auto. }
+  { destruct (sel cfg eff || c_show_skipped cfg); [|reflexivity]. cbn. clear. induction all_steps; cbn; auto. }
   rewrite !step_calls_app, (no_calls_no_step_calls _ F1), (no_calls_no_step_calls _ A),
           (no_calls_no_step_calls _ F3), (no_calls_no_step_calls _ E4). cbn [app]. rewrite app_nil_r. exact So.
 Qed.
@@ -247,7 +247,7 @@ Lemma run_rule_calls cfg st r anc inh fhb st' res fld ev :
   calls_match (c_cont cfg) (rule_specs inh r) (step_calls ev).
 Proof.
   unfold run_rule. cbv zeta. destruct (open_close_no_calls cfg) as [Ho Hc].
-  set (hc := negb (c_dry cfg) && rule_should_run cfg anc r).
+  set (hc := negb (c_dry cfg) && rule_runs cfg anc r).
   match goal with |- context [if hc then ?A else ?B] => destruct (if hc then A else B) as [[st1 hf] evb] eqn:E1 end.
   apply Ho in E1.
   match goal with |- context [run_sitems ?a ?b ?c0 ?d ?e ?f] =>
@@ -257,10 +257,10 @@ Proof.
   apply Hc in E5.
   destruct (pop st3) as [[st4 cr] evp] eqn:E4. apply pop_quiet in E4. apply allq_calls in E4.
   intros E; inversion E; subst; clear E.
-  assert (A : call_ids (if rule_should_run cfg anc r || c_show_skipped cfg
+  assert (A : call_ids (if rule_runs cfg anc r || c_show_skipped cfg
       then EFmt (FRuleEv (r_id r)) :: (if match r_bg r with Some _ => true | None => fhb end
                                        then [EFmt (FBackground (map st_id (opt_steps (r_bg r))))] else []) else []) = []).
-  { destruct (rule_should_run cfg anc r || c_show_skipped cfg); [|reflexivity].
+  { destruct (rule_runs cfg anc r || c_show_skipped cfg); [|reflexivity].
     destruct (match r_bg r with Some _ => true | None => fhb end); reflexivity. }
   rewrite !step_calls_app, (no_calls_no_step_calls _ E1), (no_calls_no_step_calls _ A),
           (no_calls_no_step_calls _ E5), (no_calls_no_step_calls _ E4). cbn [app]. rewrite app_nil_r. exact E3.
